@@ -113,8 +113,35 @@ def lambda_bodies_charged(chk: Check, R: str) -> None:
                     'closure (%s) evaluates the Op-typed body through .eval(state) exactly once per invocation' % how)
 
 
+def _scalar_state_fields(F) -> set:
+    """Fields of the VM state that hold plain numbers (annotated int/float/bool/str): reading one of them hands out a number,
+    not the state."""
+    out = set()
+    vm = 'smartquery.vm_state.VMState'
+    if vm in F.classes:
+        for n, ann, d, q in F.all_fields(vm):
+            if isinstance(ann, ast.Name) and ann.id in ('int', 'float', 'bool', 'str'):
+                out.add(n)
+        init = F.cls(vm).methods.get('__init__')
+        if init is not None:
+            for a in init.args.args + init.args.kwonlyargs:
+                if isinstance(a.annotation, ast.Name) and a.annotation.id in ('int', 'float', 'bool', 'str'):
+                    out.add(a.arg)
+    return out
+
+
+def _without_scalar_fields(t, st, scalars):
+    t = freeze(t)
+    if isinstance(t, tuple):
+        if len(t) == 3 and t[0] == 'attr' and t[1] == st and t[2] in scalars:
+            return ('const', 0)
+        return tuple(_without_scalar_fields(x, st, scalars) for x in t)
+    return t
+
+
 def state_does_not_escape(chk: Check, R: str) -> None:
     F = chk.facts
+    scalars = _scalar_state_fields(F)
     for cls in om.op_classes(F):
         if not om.own_eval(F, cls) or cls == om.ROOT:
             continue
@@ -131,7 +158,7 @@ def state_does_not_escape(chk: Check, R: str) -> None:
                 if e.kind == 'call' and not e.d.get('inlined') and not e.d.get('ctor'):
                     f = freeze(e.func)
                     allargs = tuple(freeze(e.args)) + tuple(v for _, v in freeze(e.kwargs))
-                    if any(om.carries(a, st) for a in allargs):
+                    if any(om.carries(_without_scalar_fields(a, st, scalars), st) for a in allargs):
                         if isinstance(f, tuple) and f and f[0] == 'attr' and f[2] == om.EVAL:
                             continue
                         if e.resolved:
@@ -505,3 +532,16 @@ def parser_terms(F, selft):
 def lexer_term(F, selft):
     """The (first) term that denotes the shared lexer from inside a parser method."""
     return lexer_terms(F, selft)[0]
+
+
+def builds_message(e) -> bool:
+    """A call that only builds the text of an error message: str()/repr()/format() or a str method on a constant template."""
+    if e.kind != 'call':
+        return False
+    f = freeze(e.func)
+    if isinstance(f, tuple) and f[:2] == ('ref', 'builtin') and f[2] in ('str', 'repr', 'format'):
+        return True
+    if isinstance(f, tuple) and f and f[0] == 'attr' and f[2] in ('format', 'join', 'format_map') and isinstance(f[1], tuple) \
+            and f[1][:1] == ('const',) and isinstance(f[1][1], str):
+        return True
+    return False
